@@ -1468,4 +1468,31 @@ Section Main.
       rewrite (find_ext _ (fun kx => match_int i (fst kx)) _ Efk).
       exact (Hscan _ (match_int i) (rdkey_int_ok buf kk i _ Hki Hkeys)).
   Qed.
+
+  Lemma refine_main n : forall p, (length p <= n)%nat -> p <> [] -> P_msg p /\ P_val p.
+  Proof.
+    induction n as [|n IH]; intros p Hl Hne.
+    - destruct p; [contradiction|cbn in Hl; lia].
+    - destruct p as [|s p']; [contradiction|]. cbn [length] in Hl.
+      assert (IHm : p' <> [] -> P_msg p') by (intros H; apply (IH p'); [lia|exact H]).
+      assert (IHv : p' <> [] -> P_val p') by (intros H; apply (IH p'); [lia|exact H]).
+      pose proof (P_msg_step s p' IHv) as HM. split; [exact HM|].
+      intros buf pre lbl t num v w0 ws w2 Hp Hwf Hn Hkk Ef Hin Eb Hlen.
+      destruct lbl as [|q0|kk].
+      + apply (P_val_singular (s :: p') buf pre t num v w0 ws w2 HM ltac:(discriminate) Hp Hwf Hn Ef Eb Hlen).
+      + apply (P_val_list s p' buf pre q0 t num v w0 ws w2 IHm Hp Hwf Hn Ef Hin Eb Hlen).
+      + apply (P_val_map s p' buf pre kk t num v w0 ws w2 IHm Hp Hwf Hn Hkk Ef Hin Eb Hlen).
+  Qed.
 End Main.
+
+(* ------------------------------------------------------------------ the refinement theorem *)
+Theorem gbp_refines_plookup S root m p : gbp_domain S root m p = true ->
+  refines (plookup_root S root m p) (gbp all_fixes S root (encode_msg m) p).
+Proof.
+  unfold gbp_domain. intros H.
+  apply andb_true_iff in H as [H Hne]. apply andb_true_iff in H as [H Hp]. apply andb_true_iff in H as [H Hlen].
+  apply andb_true_iff in H as [HS Hwf]. apply Z.ltb_lt in Hlen. change (2 ^ 63) with 9223372036854775808 in Hlen.
+  destruct p as [|s p']; [discriminate|]. unfold gbp, plookup_root.
+  destruct (refine_main S HS (length (s :: p')) (s :: p') (le_n _) ltac:(discriminate)) as [HM _].
+  apply (HM true (encode_msg m) 0 LSingular 0 root m [] 0 Hp (or_introl eq_refl) Hwf (msg_entry_root _) Hlen).
+Qed.
